@@ -5,3 +5,15 @@ CHECKS["C16"] = dict(
     text="Every (n,k) with 2<=k<=n<=64 unshuffled, every permutation the shuffle can draw for n<=6 (n<=8 thorough) and every schedule with <=2 non-identity Fisher-Yates steps up to n=16, each judged by the partition / complement / block / leak oracle with a spy estimator. This is a complete enumeration of the stated bounds, which is the right level for index bookkeeping code whose defects are off-by-one and misplacement errors that show on small n.",
     note="Assumes the chooser-driven Fisher-Yates enumerates exactly the permutations rand's shuffle can produce; rows identified by content; n>64 and non-listed test sizes not explored.",
 )
+CHECKS["C12"] = dict(
+    engine="E1",
+    technique="exhaustive enumeration of (lattice point sequence, k, max_iter, complete k-means++ answer sequence) executions of the real fit, and of (point sequence, centroid multiset) for the BBD-tree assignment step; RNG owned through the verif-hooks seam (64-point cutoff grid covering every selectable index, plus edge answers)",
+    text="Every seeding schedule of every small lattice data set is executed and judged against the definition (centroid = mean of last-assigned rows, sizes = counts, predict = nearest centroid, BBD assignment = exhaustive search). Completeness over the RNG is exactly what repeated unseeded fits cannot give; the bounded lattice is where ties, duplicates, coincident and far centroids, and empty clusters all occur.",
+    note="Cutoff draws restricted to 64 grid mid-points (+ the two edge values): sufficient to reach every index of positive weight on the integer lattices used. Larger data only through 4 structured families with deviation-bounded seeding.",
+)
+CHECKS["C10"] = dict(
+    engine="E1",
+    technique="exhaustive enumeration of SVC fits over every visiting order ((n!)^(1+epochs) Fisher-Yates answer sequences via the verif-hooks seam) of every small lattice training set x labelling x kernel x (C,tol); exhaustive SVR and kernel enumeration; KKT / feasibility / kernel-expansion oracle",
+    text="All schedules of the unseeded sample order are explored for n=4 (n=5 thorough) and deviation-bounded for n=6..8; each fitted model is read back through serde and checked for box feasibility in the direction of its sample's class, zero sum, equality of the decision function with the closed-form kernel expansion and the sign rule. SVR: epsilon-insensitive KKT within tol at every training point. This is the level at which 'for every visiting order' can be decided at all.",
+    note="Support vectors matched to rows by value (any consistent matching accepted); KKT slack tol+1e-9; sigmoid kernel excluded from SVR optimality as the property states.",
+)
